@@ -53,6 +53,8 @@ func TestObjGen(t *testing.T) {
 	defer w.Close()
 	nEx, nEv := envInt("VERIF_N", 40), envInt("VERIF_LEN", 8)
 	total := 0
+	hw := startHangWatch("TestObjGen", time.Duration(envInt("VERIF_HANG_S", 60))*time.Second)
+	defer close(hw.stop)
 	for tr := 0; tr < nEx; tr++ {
 		rng := rand.New(rand.NewSource(verifSeed()*6007 + int64(tr)))
 		dir, _ := os.MkdirTemp("", "verifbolt")
@@ -108,24 +110,42 @@ func TestObjGen(t *testing.T) {
 					delete(newest, on)
 					w.Emit(map[string]any{"ev": "remove", "n": strs(on)})
 				default:
-					var got bytes.Buffer
-					completions, errS := 0, ""
-					done, inOrder, lastProg := false, true, -1
-					cons.cli.Consume(nm(on), func(st *object.ConsumeState) bool {
-						got.Write(st.Content())
-						if st.Progress() < lastProg {
-							inOrder = false
-						}
-						lastProg = st.Progress()
-						if st.IsComplete() {
-							completions++
-							done = true
-							if st.Error() != nil {
-								errS = "error"
+					type cRun struct {
+						on                string
+						got               bytes.Buffer
+						completions       int
+						errS              string
+						done, inOrder     bool
+						lastProg          int
+						byVersion, exists bool
+					}
+					start := func(on string) *cRun {
+						r := &cRun{on: on, inOrder: true, lastProg: -1}
+						askName := nm(on)
+						if cur, ok := newest[on]; ok {
+							r.exists = true
+							if rng.Intn(4) == 0 { // ask for the newest version by its full name, built the usual way
+								askName = append(askName, enc.NewVersionComponent(cur[0]))
+								r.byVersion = true
 							}
 						}
-						return true
-					})
+						cons.cli.Consume(askName, func(st *object.ConsumeState) bool {
+							r.got.Write(st.Content())
+							if st.Progress() < r.lastProg {
+								r.inOrder = false
+							}
+							r.lastProg = st.Progress()
+							if st.IsComplete() {
+								r.completions++
+								r.done = true
+								if st.Error() != nil {
+									r.errS = "error"
+								}
+							}
+							return true
+						})
+						return r
+					}
 					dropped := map[string]int{}
 					// black-hole mode: one segment (not the first) never gets through, so the fetch must fail once; the
 					// Data of the other segments is held back and arrives only after the failure was reported
@@ -133,10 +153,12 @@ func TestObjGen(t *testing.T) {
 					if cur, ok := newest[on]; ok && cur[1] > 16000 && rng.Intn(4) == 0 {
 						bh = []int{2, 2, 2, 1}[rng.Intn(4)]
 					}
-					segOf := func(b enc.Buffer) int {
+					nack := rng.Intn(2) == 0
+					// (object, segment) a packet is about; segment -1 for metadata / version discovery
+					segOf := func(b enc.Buffer) (string, int) {
 						p, _, err := spec.ReadPacket(enc.NewBufferReader(b))
 						if err != nil {
-							return -1
+							return "", -1
 						}
 						var n enc.Name
 						if p.Interest != nil {
@@ -144,22 +166,46 @@ func TestObjGen(t *testing.T) {
 						} else if p.Data != nil {
 							n = p.Data.NameV
 						}
+						obj := ""
+						if len(n) >= 2 {
+							obj = "/" + string(n[0].Val) + "/" + string(n[1].Val)
+						}
 						for _, c := range n {
-							if c.Typ == enc.TypeKeywordNameComponent { // metadata / version discovery, not a content segment
-								return -1
+							if c.Typ == enc.TypeKeywordNameComponent {
+								return obj, -1
 							}
 						}
 						for _, c := range n {
 							if c.Typ == enc.TypeSegmentNameComponent {
-								return int(c.NumberVal())
+								return obj, int(c.NumberVal())
 							}
 						}
-						return -1
+						return obj, -1
 					}
-					var held, nacks []enc.Buffer
-					nack := rng.Intn(2) == 0
-					for step := 0; step < 3000 && !done; step++ {
+					A := start(on)
+					// a second fetch running at the same time (an application fetching two objects): when the first one is
+					// made to fail promptly, the second is kept waiting for its first segment until that has happened
+					var B *cRun
+					if rng.Intn(3) == 0 {
+						other := objs[0]
+						if other == on {
+							other = objs[1]
+						}
+						B = start(other)
+					}
+					holdB := B != nil && bh >= 0 && nack
+					var held, heldB, nacks []enc.Buffer
+					hw.tick(map[string]any{"execution": tr, "event": e, "ev": "consume", "n": strs(on), "byVersion": A.byVersion, "blackhole": bh, "nack": nack, "concurrent": B != nil})
+					for step := 0; step < 3000 && !(A.done && (B == nil || B.done)); step++ {
+						hw.tick(nil)
 						synctest.Wait()
+						if A.done && len(heldB) > 0 {
+							for _, p := range heldB {
+								cons.face.FeedPacket(p)
+							}
+							heldB = nil
+							synctest.Wait()
+						}
 						var batch []enc.Buffer
 						for {
 							p, err := cons.face.Consume()
@@ -171,7 +217,7 @@ func TestObjGen(t *testing.T) {
 						rng.Shuffle(len(batch), func(i, j int) { batch[i], batch[j] = batch[j], batch[i] })
 						var replies []enc.Buffer
 						for _, b := range batch {
-							if bh >= 0 && segOf(b) == bh {
+							if o, sg := segOf(b); bh >= 0 && o == A.on && sg == bh {
 								if nack { // a final failure while other segments are still outstanding
 									lp := &spec.Packet{LpPacket: &spec.LpPacket{Nack: &spec.NetworkNack{Reason: spec.NackReasonCongestion}, Fragment: enc.Wire{b}}}
 									pe := spec.PacketEncoder{}
@@ -199,8 +245,13 @@ func TestObjGen(t *testing.T) {
 						replies = append(replies, nacks...)
 						nacks = nil
 						for _, p := range replies {
-							if bh >= 0 && segOf(p) >= 1 { // segment 0 opens the window; everything after it is late
+							o, sg := segOf(p)
+							if bh >= 0 && o == A.on && sg >= 1 { // segment 0 opens the window; everything after it is late
 								held = append(held, p)
+								continue
+							}
+							if holdB && !A.done && o == B.on && sg == 0 {
+								heldB = append(heldB, p)
 								continue
 							}
 							cons.face.FeedPacket(p)
@@ -219,9 +270,16 @@ func TestObjGen(t *testing.T) {
 						cons.timer.MoveForward(time.Second)
 						synctest.Wait()
 					}
-					w.Emit(map[string]any{"ev": "consume", "n": strs(on), "completions": completions, "err": errS, "hash": hsh(got.Bytes()), "len": got.Len(), "chunksInOrder": inOrder, "lossy": bh >= 0})
+					for _, r := range []*cRun{A, B} {
+						if r != nil {
+							w.Emit(map[string]any{"ev": "consume", "n": strs(r.on), "completions": r.completions, "err": r.errS, "hash": hsh(r.got.Bytes()), "len": r.got.Len(),
+								"chunksInOrder": r.inOrder, "lossy": r == A && bh >= 0, "byVersion": r.byVersion, "concurrent": B != nil})
+						}
+					}
 				}
 				total++
+				w.w.Flush()
+				hw.tick(nil)
 			}
 			prod.cli.Stop()
 			cons.cli.Stop()
